@@ -8,6 +8,26 @@ ASSUMPTIONS = [
 ]
 
 CONF = {
+    "C04": {
+        "rule": "rapid-generated L2 histories (3..30 ops mixing receives, replays, sends, deposits, both replacements, all 18 admin types, ledger changes, multi-message transactions, injected mint faults); amounts from {1,2^64-1,2^64,2^64+1,2^128,2^255,2^256-1,random}, recipients zero-padded / high bytes non-zero / equal to sender; pairs linked by transaction and through genesis with upper-case local token; both ledger denom modes; oracle: ledger call log + typed events vs the independently decoded message, running total minted vs sum of accepted burn messages; non-trivial = accepted burn message with amount >= 2^64 or recipient high bytes non-zero or recipient != sender; distinct by (amount, recipient, sender)",
+        "quick": {"rapid": [("TestC04", 400, 1)]},
+        "thorough": {"rapid": [("TestC04", 2000, 16)]},
+    },
+    "C05": {
+        "rule": "rapid-generated L2 histories (4..30 ops of deposits (both variants), sends, both replacements, receives, admin and ledger changes, faults, multi-message transactions; module account pre-funded in 1/4 of cases); oracle: per deposit exactly [transfer depositor->module, burn] of the stated coin and a module-sender message stating that amount; history: burned total = sum over distinct module-sender nonces, only depositors debited, module balance constant, other messages carry the submitter as sender; non-trivial = >=2 successful deposits by different depositors and >=1 replacement or failed deposit; distinct by op/outcome sequence",
+        "quick": {"rapid": [("TestC05", 400, 1)]},
+        "thorough": {"rapid": [("TestC05", 2000, 16)]},
+    },
+    "C06": {
+        "rule": "rapid-generated requests inside L2 histories (1..20 ops: sends, sends-with-caller, deposits, replacements of earlier messages; body lengths 0..max incl. boundaries; hostile 32-byte values); oracle: MessageSent bytes decoded by the reference codec vs the request, DepositForBurn event vs request/decoded message/original deposit's event; non-trivial = emitted message with non-zero caller or body >= 117 bytes or a deposit; distinct by emitted bytes",
+        "quick": {"rapid": [("TestC06", 600, 1)]},
+        "thorough": {"rapid": [("TestC06", 3000, 16)]},
+    },
+    "C09": {
+        "rule": "rapid-generated replacement attempts inside L2 histories (originals: own, someone else's, foreign-domain, any sent, forged own, forged module-sender, user-sent burn, short, own with tampered attestation; attester rotation and pausing in between); oracle: on success every required condition recomputed independently (reference verifier under current attesters), decoded replacement vs decoded original, empty write set / ledger log / store diff; non-trivial = successful replacement or rejection with exactly one required condition false; distinct by emitted bytes resp. (false condition, original class)",
+        "quick": {"rapid": [("TestC09", 400, 1)]},
+        "thorough": {"rapid": [("TestC09", 2500, 16)]},
+    },
     "C02": {
         "rule": "rapid-generated L2 histories (3..30 ops: fresh receives with 0..4 broken conditions, replays of earlier successes varying body/recipient/caller/attestation encoding/submitter/sender, pause, attester rotation, threshold change, un/re-link, messenger add/remove, multi-message transactions; genesis may pre-list pairs); after every transaction the single-item query of every tracked pair and its neighbours (swapped, +1, shifted), the full list query and the exported list are compared with the model set; non-trivial = history with a replay that is valid in every respect except the nonce of an earlier success; distinct by sequence of op labels and outcomes",
         "quick": {"rapid": [("TestC02", 400, 1)]},
@@ -33,6 +53,30 @@ CONF = {
 ALL = ["C%02d" % i for i in range(1, 21)]
 
 MANIFEST_TEXT = {
+    "C04": {
+        "technique": "model-based stateful PBT (rapid): ledger call log and typed events of every transaction compared with the independently decoded burn message; running-total invariant over histories",
+        "level": "Exploration: generated histories with hostile amounts/recipients/denoms; every mint request and event field compared with an independent decoding; conservation invariant after every transaction.",
+        "note": "x/bank and fiat-token-factory are the model ledger (both denom-case modes).",
+        "ref": "DESIGN.md section 3 C04",
+    },
+    "C05": {
+        "technique": "model-based stateful PBT (rapid): ledger call log, balances, supply and decoded MessageSent events vs per-deposit and whole-history conservation invariants",
+        "level": "Exploration: generated histories incl. pre-funded module account, failures and replacements; per-transaction equalities and sums over histories.",
+        "note": "A2 nobody submits as the module account; A3 attesters sign only messages really emitted.",
+        "ref": "DESIGN.md section 3 C05",
+    },
+    "C06": {
+        "technique": "property-based testing (rapid) with an independent reference decoder as oracle: emitted MessageSent/DepositForBurn content vs the request, replacement event vs original event",
+        "level": "Exploration: generated requests at every point of generated histories; byte-exact comparison through an independent codec.",
+        "note": "D1 canonical 20-byte submitters; the 'same burn token' clause is judged for lower-case burn tokens.",
+        "ref": "DESIGN.md section 3 C06",
+    },
+    "C09": {
+        "technique": "model-based stateful PBT (rapid): required conditions of a successful replacement recomputed with the reference verifier/codec; field-preservation and empty-write-set oracles",
+        "level": "Exploration: generated replacement attempts over nine classes of originals; 'succeeds only if' direction as stated.",
+        "note": "Attestations of forged messages are produced on purpose here (A3 lifted) to probe the other conditions.",
+        "ref": "DESIGN.md section 3 C09",
+    },
     "C02": {
         "technique": "model-based stateful PBT (rapid) on the real BaseApp pipeline: model set of used (domain, nonce) pairs vs per-pair query, list query and export after every transaction; replay generator varies everything but the nonce",
         "level": "Exploration: generated histories with adversarial replays on the real SDK pipeline against a set model; key injectivity probed through neighbour pairs, not proved.",
